@@ -30,7 +30,7 @@ ASSUMPTIONS = [
     "numbers compared after rounding to 9 significant digits (cells are doubles) inside the multiset key, then to double precision row by row",
 ]
 
-HIST = gen.GenCfg(min_steps=6, max_steps=16, max_exchanges=2, max_holders=2, force_type_cycle=True)
+HIST = gen.GenCfg(min_steps=6, max_steps=16, max_exchanges=2, max_holders=2, force_type_cycle=True, bulk_prob=0.15)
 SHEET_OF_TYPE = {
     "sell": "Capital Gains",
     "gift": "Gifts",
@@ -73,10 +73,15 @@ def evaluate(case: Dict[str, Any]) -> Outcome:
     out = Outcome()
     country = case["country"]
     out.classes.add(f"country_{country}")
+    out.classes |= cli_common.volume_classes(case)
     folder = cli_common.work_dir("c14")
     try:
         result, reference, outdir, _rows_model = c13.run_and_reference(case, folder)
         if result.rc != 0 or reference is None or not reference.get("ok"):
+            bucket = cli_common.aborted_in(result.text, "/tax_report_") if result.rc != 0 else None
+            if bucket:
+                out.fail("tax_report_generation_aborted", f"rp2_{case['country']} exited {result.rc} while writing the report: {bucket}")
+                return out
             out.skipped = "run_failed(C16)"
             return out
         label = cli.method_label(case.get("method"), case.get("schedule"), country)
